@@ -14,6 +14,7 @@ class Recorder:
         self.calls = []
         self.minread = -1
         self.lines = 0
+        self.mlines = 0       # candle-manager housekeeping (core/candle_manager.py, core/candle.py)
         self.idmap = {}
 
     def _interesting(self, code):
@@ -21,7 +22,7 @@ class Recorder:
         return "/hexital/" in f
 
     def start(self, ses):
-        self.calls, self.minread, self.lines = [], -1, 0
+        self.calls, self.minread, self.lines, self.mlines = [], -1, 0, 0
         self.idmap = {}
         for _, cs in ses.managers():
             for i, c in enumerate(cs):
@@ -51,6 +52,8 @@ class Recorder:
             f = code.co_filename
             if "/indicators/" in f or "/core/indicator.py" in f or "/analysis/" in f or "/utils/" in f:
                 self.lines += 1
+            elif "/core/candle_manager.py" in f or "/core/candle.py" in f:
+                self.mlines += 1
             return None
 
         mon.register_callback(TOOL, E.PY_START, on_start)
@@ -66,4 +69,5 @@ class Recorder:
         mon.restart_events()
         # the manager whose candle list is the longest-lived is irrelevant: report per call the
         # manager of the indicator; single-manager scenarios use j = 1
-        return {"j": 1, "calls": self.calls, "minread": self.minread, "lines": self.lines}
+        return {"j": 1, "calls": self.calls, "minread": self.minread, "lines": self.lines,
+                "mlines": self.mlines}
